@@ -365,6 +365,8 @@ struct Img {
     lens: Vec<usize>,
     want: Value,
     stamp: u64,
+    /// WAL entry read through the rotator's recovery as the only entry of a sealed file (not the newest one)
+    sealed: bool,
 }
 
 fn images(n: usize) -> Vec<Img> {
@@ -380,7 +382,7 @@ fn images(n: usize) -> Vec<Img> {
     let bytes = w.finish().unwrap();
     let (_, _) = (recs, bytes.len());
     let want = json!({"deltas": jv(&ds), "count": ds.len(), "min": ds.iter().map(|d| d.value.timestamp.time).min().unwrap(), "max": ds.iter().map(|d| d.value.timestamp.time).max().unwrap()});
-    v.push(Img { fmt: "segment", lens: vec![recs], bytes, want, stamp: 0 });
+    v.push(Img { fmt: "segment", lens: vec![recs], bytes, want, stamp: 0, sealed: false });
     // checkpoint
     let mut st = HashMap::new();
     for d in &ds {
@@ -389,17 +391,72 @@ fn images(n: usize) -> Vec<Img> {
     let bytes = CheckpointWriter::new(Compression::None).write(st.clone(), 777, 5).unwrap();
     let dlen = bytes.len() - 48 - 4 - 16;
     let want = json!({"state": jv(&st), "count": st.len(), "ts": 777, "last": 5});
-    v.push(Img { fmt: "checkpoint", lens: vec![dlen], bytes, want, stamp: 0 });
+    v.push(Img { fmt: "checkpoint", lens: vec![dlen], bytes, want, stamp: 0, sealed: false });
     // WAL entry (the last delta)
     let d = &ds[ds.len() - 1];
     let e = WalEntry::from_delta(d, 4242).unwrap();
     let bytes = e.encode();
-    v.push(Img { fmt: "wal", lens: vec![bytes.len() - 16], bytes, want: jv(d), stamp: 4242 });
+    v.push(Img { fmt: "wal", lens: vec![bytes.len() - 16], bytes: bytes.clone(), want: jv(d), stamp: 4242, sealed: false });
+    // the same entry as the only entry of a rotated-away file, read back by the rotator's recovery
+    v.push(Img { fmt: "wal", lens: vec![bytes.len() - 16], bytes, want: jv(d), stamp: 4242, sealed: true });
     v
+}
+
+/// The same WAL entry read the way a restart reads it: it is the only entry of a sealed (rotated-away) file
+/// that is followed by a newer file; WalRotator::recover_all_entries over both.  `bytes` are the entry's bytes.
+fn read_wal_sealed(bytes: &[u8], want: &Value, stamp: u64) -> (String, String) {
+    use redis_sim::streaming::wal_store::{InMemoryWalStore, WalFileWriter, WalStore};
+    use redis_sim::streaming::{WalRotator, WalWriter};
+    let r = catch(|| -> Result<Option<(Value, u64)>, String> {
+        let st = InMemoryWalStore::new();
+        // file 1: real header + the (damaged) entry; file 2: a real, newer file with one intact entry
+        let w1 = st.create("wal-00000001.wal").map_err(|e| e.to_string())?;
+        let mut ww = WalWriter::new(w1, 1).map_err(|e| e.to_string())?;
+        ww.sync().map_err(|e| e.to_string())?;
+        drop(ww);
+        let hdr = st.open_read("wal-00000001.wal").map_err(|e| e.to_string())?;
+        let mut hdr = hdr;
+        let mut data = redis_sim::streaming::wal_store::WalFileReader::read_all(&mut hdr).map_err(|e| e.to_string())?;
+        data.extend_from_slice(bytes);
+        st.delete("wal-00000001.wal").map_err(|e| e.to_string())?;
+        let mut w1 = st.create("wal-00000001.wal").map_err(|e| e.to_string())?;
+        w1.append(&data).map_err(|e| e.to_string())?;
+        w1.sync().map_err(|e| e.to_string())?;
+        let w2 = st.create("wal-00000002.wal").map_err(|e| e.to_string())?;
+        let mut ww2 = WalWriter::new(w2, 2).map_err(|e| e.to_string())?;
+        let newer = small_deltas(1);
+        ww2.append_entry(&WalEntry::from_delta(&newer[0], 9999).map_err(|e| format!("{e:?}"))?).map_err(|e| e.to_string())?;
+        ww2.sync().map_err(|e| e.to_string())?;
+        let rot = WalRotator::new(st, 1 << 30).map_err(|e| e.to_string())?;
+        let es = rot.recover_all_entries().map_err(|e| e.to_string())?;
+        // the newer file's entry is stamped 9999; anything else came out of the sealed file
+        match es.iter().find(|e| e.timestamp != 9999) {
+            None => Ok(None),
+            Some(e) => {
+                let d = e.to_delta().map_err(|e| format!("to_delta: {e:?}"))?;
+                Ok(Some((jv(&d), e.timestamp)))
+            }
+        }
+    });
+    match r {
+        Err(p) => ("panic".into(), p),
+        Ok(Err(e)) => ("error".into(), e),
+        Ok(Ok(None)) => ("error".into(), "recovery of the sealed file ended before the entry".into()),
+        Ok(Ok(Some((v, ts)))) => {
+            if &v != want {
+                ("different".into(), String::new())
+            } else if ts != stamp {
+                ("same_payload".into(), format!("stamp {ts} for {stamp}"))
+            } else {
+                ("same".into(), String::new())
+            }
+        }
+    }
 }
 
 fn read(img: &Img, bytes: &[u8]) -> (String, String) {
     match img.fmt {
+        "wal" if img.sealed => read_wal_sealed(bytes, &img.want, img.stamp),
         "segment" => read_segment(bytes, &img.want),
         "checkpoint" => read_checkpoint(bytes, &img.want),
         _ => read_wal_entry(bytes, &img.want, img.stamp),
@@ -409,7 +466,7 @@ fn read(img: &Img, bytes: &[u8]) -> (String, String) {
 fn dmg_case(out: &mut Out, img: &Img, kind: &str, pos: usize, width: usize, bit: usize, bytes: &[u8]) {
     let run = out.n + 1;
     let (class, detail) = read(img, bytes);
-    out.emit(&json!({"t": "dmg", "run": run, "fmt": img.fmt, "total": img.bytes.len(), "lens": img.lens, "kind": kind, "pos": pos, "width": width, "bit": bit,
+    out.emit(&json!({"t": "dmg", "run": run, "fmt": img.fmt, "sealed": img.sealed, "total": img.bytes.len(), "lens": img.lens, "kind": kind, "pos": pos, "width": width, "bit": bit,
                      "class": class, "detail": detail}));
 }
 
